@@ -26,7 +26,7 @@ META = {
                   "c2 > 1; scale factors are real for every c2 > 1; (5) c2 = _compute_cn(2) equals (1-mu)/r1^3 + mu/r2^3 at x(gamma) for every mu, gamma (L1, L2, L3), the characteristic polynomial of the field's Jacobian at L4 / L5 is (s^4 + s^2 + 27/4 mu(1-mu))(s^2 + 1) for every mu, and for ALL 19 catalogue pairs x L1..L5 the real _compute_linear_modes returns the analytic roots (exhaustive over the catalogue; triangular points below Routh's value).",
     "level_note": "Not decided: convergence of Brent / expand_bracket; accuracy of numpy.linalg.eig (external, trusted). The "
                   "post-processing of eig in _compute_linear_modes is checked on closed instances plus the NRA fact that the "
-                  "planar frequency exceeds the vertical one for c2 > 1.",
+                  "planar frequency exceeds the vertical one for c2 > 1. The constructors' guards are proved to accept the whole domain 0 < mu <= 1/2; the scale-independence of the bracketed root finder is a BOUNDED stand-in (60 float instances), not a proof.",
     "technique": "exact identities (sympy normal form with sqrt / Vieta relations) + z3 NRA bracket VCs over all mu + exact catalogue evaluation",
 }
 
